@@ -641,6 +641,10 @@ def corr_c10(n_quick, n_thorough):
         n = n_thorough if ctx.tier == 'thorough' else n_quick
         vectors = chk.gen_vectors('inject', ['-seed', str(ctx.seed + 5), '-n', str(n), '-per', '0' if ctx.tier == 'thorough' else '24'])
         vectors += chk.gen_vectors('slots', ['-seed', str(ctx.seed + 5), '-per', '1'])
+        # two Steps with a request raised at the boundary between them (what the first Step leaves behind besides the public state must not
+        # matter), and histories with two mode-0 acceptances
+        vectors += chk.gen_vectors('slots', ['-seed', str(ctx.seed + 6), '-per', '2' if ctx.tier == 'thorough' else '1', '-inj1', '100'])
+        vectors += chk.gen_vectors('im0twice', ['-seed', str(ctx.seed + 6), '-n', '400' if ctx.tier == 'thorough' else '60'])
         vectors += chk.gen_vectors('block', ['-seed', str(ctx.seed + 5), '-n', '60', '-per', '0'])
         lines = [l for l in vectors.splitlines() if l.strip()]
         rb = [('rb-' + l)[:-len('K step')] + 'K rebuild' for l in lines if l.endswith('K step')]
@@ -689,7 +693,7 @@ def corr_c10(n_quick, n_thorough):
         cov['evaluations'] += 3 * n_mk
         cov['correspondence'].update({'snapshot_pairs': n_rb, 'memory_kind_triples': n_mk, 'parallel': pl, 'race_detector': race, 'goroutines': g})
         cov['rule'] += (' | snapshot: every vector (injection programs, one per opcode slot, block runs) is also run with the CPU REBUILT from a copy of States and the exported fields after EVERY Step; results must be identical. '
-                        '| memkinds: opcode-slot and interrupt vectors run three times on the real code, with the harness memory, a 64 KiB z80.DumbMemory and a z80.MapMemory holding the same bytes; state, changed bytes and port/handler events must agree '
+                        '| memkinds: opcode-slot, two-Step and interrupt vectors (incl. two mode-0 acceptances in a row) run on the real code with the harness memory, a 64 KiB z80.DumbMemory, a z80.MapMemory holding the same bytes, and a DumbMemory that is REPLACED by a copy after every Step; state, changed bytes and port/handler events must agree '
                         '| parallel: the injection programs and Run vectors executed from %d goroutines concurrently on their own CPUs/memories, compared with the sequential results, under the race detector' % g)
         return out, cov
     return run
@@ -758,6 +762,9 @@ def corr_c12(ctx, chk, broken):
     out, cov = base(ctx, chk, broken)
     nm, per = (30000, 6) if ctx.tier == 'thorough' else (3000, 2)
     vectors = chk.gen_vectors('malformed', ['-seed', str(ctx.seed + 11), '-n', str(nm)]) + chk.gen_vectors('slots', ['-seed', str(ctx.seed + 11), '-per', str(per)])
+    # every slot with PC in FFFB..FFFF: with the short kind's "slice ends inside the instruction" lengths this puts the end of a 65535/65536-byte
+    # DumbMemory inside instructions that straddle the top of the address space
+    vectors += re.sub(r'(?m)^(\w+-[0-9a-f]{2}-)', r'\1T', chk.gen_vectors('slots', ['-seed', str(ctx.seed + 17), '-per', str(2 * per), '-toppc', '100']))
     vectors = re.sub(r'(?m)K step$', 'K short', vectors)
     byid = {l.split(' ', 1)[0]: l for l in vectors.splitlines() if l.strip()}
     n = 0
